@@ -2,8 +2,8 @@
 
 Reads `eq` and `lt` of /repo/pyglove/core/symbolic/base.py with `ast`.  Every branch is recognised by its guard (compared as a
 normalised ast.dump) and its body must have the fingerprint recorded here; the order in which the branches are tried is
-emitted as two Coq lists.  The helper functions the model transcribes by hand (ne, gt, _key_order, Object.sym_eq / sym_lt /
-sym_hash / __eq__ / __ne__ / __hash__, Dict.sym_hash, List.sym_hash) must have their recorded fingerprints too.
+emitted as two Coq lists.  The helper functions the model transcribes by hand (ne, gt, _key_order, callable_eq, Symbolic.sym_eq / sym_ne / sym_lt / sym_gt,
+Object.sym_eq / sym_lt / sym_hash / __eq__ / __ne__ / __hash__, Dict / List.sym_hash / __hash__, MissingValue.__eq__ / __ne__ / __hash__) must have their recorded fingerprints too.
 Fail-closed: an unknown guard, a changed body, a missing or duplicated branch raises TranslationError.  Never imports pyglove.
 Run `python harness/translators/compare_dispatch.py --fingerprints` to print the fingerprints of the current source.
 """
@@ -72,6 +72,13 @@ BODY_FP = {
     'list.List.sym_hash': '4c39032a677c8438',
     'list.List.__hash__': 'ba47b5633899abbb',
     'dict.Dict.__hash__': 'ba47b5633899abbb',
+    'base.Symbolic.sym_eq': 'ef697ed9ca6a082a',
+    'base.Symbolic.sym_ne': 'ee73bda4b08f8f0f',
+    'base.Symbolic.sym_lt': '58f67dd9f1f22a34',
+    'base.Symbolic.sym_gt': '08518d6d9d3de220',
+    'utils.MissingValue.__eq__': '2ea57b28e2fdf657',
+    'utils.MissingValue.__ne__': '4d33ff87b8f494bd',
+    'utils.MissingValue.__hash__': '5aa5bd107aecad5a',
     'typing.inspect.callable_eq': '4516ca1c55810805',
 }
 
@@ -150,6 +157,11 @@ def read(found=None):
     t = parse('pyglove/core/symbolic/%s.py' % mod)
     for n in names:
       found['%s.%s.%s' % (mod, cls, n)] = fp(_strip_doc(_func(t, n, cls).body))
+  for n in ('sym_eq', 'sym_ne', 'sym_lt', 'sym_gt'):
+    found['base.Symbolic.' + n] = fp(_strip_doc(_func(base, n, 'Symbolic').body))
+  mv = parse('pyglove/core/utils/missing.py')
+  for n in ('__eq__', '__ne__', '__hash__'):
+    found['utils.MissingValue.' + n] = fp(_strip_doc(_func(mv, n, 'MissingValue').body))
   found['typing.inspect.callable_eq'] = fp(_strip_doc(_func(parse('pyglove/core/typing/inspect.py'), 'callable_eq').body))
   return eq_order, lt_order, found
 
